@@ -1,5 +1,6 @@
 (* Shared between the drivers: nat conversion, alphabet, value printing. *)
 open Model
+type string = String.t
 
 let rec nat_of_int (n : int) : nat = if n <= 0 then O else S (nat_of_int (n - 1))
 let rec int_of_nat (n : nat) : int = match n with O -> 0 | S m -> 1 + int_of_nat m
